@@ -133,11 +133,15 @@ func intToStr(t *Term, signed bool) *Term {
 	pos := app("str.from_int", KStr, 0, i)
 	pos.MaxLen = 20
 	if !signed {
+		pos.OfInt = i
+		pos.OfBV, pos.OfBVS = t, false
 		return pos
 	}
 	neg := strConcat(mkStr("-"), app("str.from_int", KStr, 0, app("-", KInt, 0, i)))
 	r := Ite(intLt(i, mkInt(0)), neg, pos)
 	r.MaxLen = 21
+	r.OfInt = i
+	r.OfBV, r.OfBVS = t, true
 	return r
 }
 
